@@ -261,6 +261,22 @@ def run(ctx):
     res.rule("OTHER", 15)
     from rules import structural
     structural.filter_mpt(ctx, FN)
+    # ---- object lifetime: caching on, a throw-away filter, then a new filter allocated where the dropped one lived (see C05 KEY-LIFETIME)
+    from rules import c05
+    for d_, u_ in (("ANY", "NEIGHBOR"), ("FORWARD", "NEIGHBOR")):
+        try:
+            got, a_, others_, links_, f2_ = c05.lifetime_scenario(h, True, d_, u_)
+        except Unknown as u:
+            res.undecide(f"filter lifetime {d_},{u_}: {u}")
+            continue
+        rows_ = [("DirectedEdge", "v1"), ("DirectedEdge", "v2"), ("SymTwo", "v1"), ("UnDirectedEdge", "v2")]
+        want = [o.name for (cls_, pos_), o in zip(rows_, others_) if expected(KINDS[cls_], pos_, d_, u_, "accept") == "OE" and o is not others_[3]]
+        ok = got == want
+        res.ob(ok, sig=("lifetime", d_, u_))
+        if not ok:
+            res.violation("TABLE", FN, f"dir={d_},unknown={u_},caching-on,second-filter-allocated-where-the-first-one-lived",
+                          f"caching on; neighbors(a, {d_}, {u_}, f1) with a throw-away filter, then neighbors(a, {d_}, {u_}, f2) with a new filter living at the dropped one's address returns {got}; "
+                          f"the links for which f2(edge, other_end) is true give {want}")
     from rules import hist
     hist.run(ctx, res, 'C04')       # composition: histories through the public API against the reference model (rules/hist.py)
     common.vacuity(res, "HISTORY", 9000)
